@@ -362,13 +362,26 @@ class Ctx:
         if register:
             bus.on(pattern, fn)
             key = pattern if isinstance(pattern, str) else pattern.__name__
-            self.registered.append((bus._vfw_name, key, name))
+            r = self.rec('REG', bus=bus._vfw_name, key=key, name=name) if self.loop is not None and self.records else None
+            self.registered.append((bus._vfw_name, key, name, r.seq if r is not None else -1))
         return fn
 
     def expected(self, bus_name, label):
         """names of monitored handlers registered on bus whose pattern matches the event labelled `label`."""
         et = self.events[label].event_type
-        return [n for (b, k, n) in self.registered if b == bus_name and (k == et or k == '*')]
+        # a handler registered late (while the scenario runs) is only *expected* for events accepted by that bus afterwards
+        first_dr = next((r.seq for r in self.records if r.kind == 'DR' and r.bus == bus_name and r.ev == label), None)
+        out = []
+        for (b, k, n, seq) in self.registered:
+            if b == bus_name and (k == et or k == '*'):
+                if seq < 0 or (first_dr is not None and seq < first_dr):
+                    out.append(n)
+        return out
+
+    def may_run(self, bus_name, label):
+        """handlers that may legitimately run for the event on that bus (expected ones plus late-registered ones)."""
+        et = self.events[label].event_type
+        return [n for (b, k, n, seq) in self.registered if b == bus_name and (k == et or k == '*')]
 
     # ---------------------------------------------------------------- verdicts
     def check(self, clause, ok, **info):
